@@ -27,6 +27,7 @@ PageSeqFrom(i, to) == IF i >= to \/ i >= NBlock THEN <<>> ELSE <<BlockTx(i)>> \o
 PageSeq(page, limit) == PageSeqFrom((page - 1) * limit, page * limit)
 
 InitState == [known |-> {},         \* transactions some provider has answered in full (cacheable)
+              addrs |-> {},          \* addresses whose complete history some provider has answered
               blockKnown |-> FALSE,  \* block header answered
               fee |-> <<>>]          \* fee group -> value answered and stored  (function with domain \subseteq groups)
 
@@ -51,6 +52,13 @@ Succ(s, e) ==
                               !.known = IF e.parse THEN @ \cup {BlockTx(i) : i \in PageIdx(e.page, e.limit)} ELSE @], s,
                     [s EXCEPT !.blockKnown = TRUE]}
          ELSE IF s.blockKnown /\ \A i \in PageIdx(e.page, e.limit) : BlockTx(i) \in s.known THEN {s} ELSE {}
+    [] e.op = "txs" ->       \* gettransactions(address e.a): e.full = the complete history a provider answers (old to new)
+         IF ~e.ok THEN (IF e.prov = "fail" THEN {s} ELSE {})
+         ELSE IF e.ret # e.full THEN {}                                \* a partial or foreign history is not an answer
+         ELSE IF e.prov = "ok"
+              THEN {[s EXCEPT !.known = @ \cup {e.full[i] : i \in 1..Len(e.full)}, !.addrs = @ \cup {e.a}], s,
+                    [s EXCEPT !.addrs = @ \cup {e.a}]}
+         ELSE IF e.a \in s.addrs THEN {s} ELSE {}                      \* only a history answered in full before
     [] e.op = "fee" ->       \* estimatefee(group): e.pval = what the provider would answer now
          IF ~e.ok THEN (IF e.prov = "fail" THEN {s} ELSE {})
          ELSE IF HasFee(s, e.g) /\ e.ret = s.fee[e.g] THEN {s}         \* served from the cache: equals the stored value
